@@ -6,6 +6,54 @@
 
 using namespace vf;
 
+// Decoder::decode owes the same answer whenever it is called: during the static initialisation of another translation unit,
+// inside main(), and after main() has returned (atexit handler registered before the library was first used). A fixed set of
+// frames - every kind, consistent, inconsistent and bus-error payloads - is decoded at all three moments.
+static std::vector<std::string> decodeFixedSet()
+{
+    std::vector<std::string> out;
+    Rng r(0x04C0FFEEULL);
+    for (int i = 0; i < 150; ++i)
+    {
+        c04::FrameSpec s = c04::genSpec(r, i < K_COUNT * 3 ? i % K_COUNT : -1, static_cast<size_t>(1 + i % 3));
+        Bytes f = buildFrame(s.ver, s.dev, s.mt, s.stream, s.seq, s.msgs);
+        ASAM::CMP::Decoder dec;
+        auto got = dec.decode(f.data(), f.size());
+        std::string line = "frame=" + hex(f, 160) + " -> " + std::to_string(got.size()) + " packet(s):";
+        for (auto& p : got)
+            line += p ? " " + snapPacket(*p).str() : " null";
+        out.push_back(line);
+    }
+    return out;
+}
+static std::string firstDifference(const std::vector<std::string>& a, const std::vector<std::string>& b)
+{
+    for (size_t i = 0; i < a.size() && i < b.size(); ++i)
+        if (a[i] != b[i])
+            return "then: " + a[i].substr(0, 1200) + " now: " + b[i].substr(0, 1200);
+    return a.size() == b.size() ? "" : "different number of results";
+}
+static void afterMainProbe();
+// (never destroyed: the atexit handler still reads it)
+static const std::vector<std::string>& gDecodedBeforeMain = *new std::vector<std::string>((lateReport(), atexit(afterMainProbe), decodeFixedSet()));
+static void afterMainProbe()
+{
+    if (lateReport().prop != "C04" || lateReport().shard != 0)
+        return;
+    std::string d = firstDifference(gDecodedBeforeMain, decodeFixedSet());
+    if (!d.empty())
+        lateViolation("C04:result-of-a-call-after-main-returned-differs", "decoded during static initialisation / after main() returned: " + d);
+}
+static void outsideMainCase(Ctx& c)
+{
+    auto now = decodeFixedSet();
+    std::string d = firstDifference(gDecodedBeforeMain, now);
+    ++c.evaluations;
+    c.count("frames_also_decoded_before_and_after_main", now.size());
+    if (!d.empty())
+        c.violation("C04:result-of-a-call-before-main-differs", "decoded during static initialisation / inside main(): " + d, "fixed set of 150 frames");
+}
+
 static long countCases(Ctx& c)
 {
     if (c.prop == "C04") return c04::count(c);
@@ -18,6 +66,7 @@ static long countCases(Ctx& c)
 
 static void runCase(Ctx& c, long idx)
 {
+    if (c.prop == "C04" && idx == 0) outsideMainCase(c);
     if (c.prop == "C04") c04::run(c, idx);
     else if (c.prop == "C05") c05::run(c, idx);
     else if (c.prop == "C06") c06::run(c, idx);
